@@ -132,8 +132,14 @@ def nontrivial(o):
 
 
 def validate(chk, pid, obs_path, cases, shards):
-    out, lines, rs = core.tlc_validate("trace/OwnerTrackTrace.tla", "trace/OwnerTrackTrace.cfg", obs_path, shards=shards, timeout=3000)
+    out, lines, rs = core.tlc_validate("trace/OwnerTrackTrace.tla", "trace/OwnerTrackTrace.cfg", obs_path, shards=shards, timeout=3000,
+                                       tags=("MISMATCH", "DRIFT"))
     classify(chk, pid, out["MISMATCH"], lines, cases, key_owner)
+    if out["DRIFT"]:
+        msg = "MODEL-DRIFT: %d scenario(s) in which the stream set-up finished at a point the client model does not predict (first id %s)" % (
+            len(out["DRIFT"]), out["DRIFT"][0].get("id"))
+        core.log(msg)
+        chk.notes.append(msg)
     return lines
 
 
